@@ -7,7 +7,7 @@
    arm passes the location it got from `expr()` to the range check or the `Link` record it creates is not
    modelled; it is checked by the planted-fault oracle and the located-expression correspondence of
    lib/c14.py. *)
-From Az65 Require Import Base Token Expr CSpec ExprParse Utf8 Lexer LexerFacts Linker ExprLoc ExprLocFacts LinkLoc LinkLocFacts Trace TraceFacts ExprLocGenFacts OperandLoc OperandLocFacts.
+From Az65 Require Import Base Token Expr CSpec ExprParse Utf8 Lexer LexerFacts Linker ExprLoc ExprLocFacts LinkLoc LinkLocFacts Trace TraceFacts ExprLocGenFacts OperandLoc OperandLocFacts LocEndToEnd.
 From Az65.Gen Require Import ExprLocArms.
 
 (* (1) Positions, defined without the state machine: the character that follows a prefix q is on line
@@ -143,6 +143,30 @@ Theorem C14_operand_located_at_its_own_first_token :
                      skip_operands k ts = Some (c ++ r).
 Proof. exact operand_located_at_its_own_first_token. Qed.
 Print Assumptions C14_operand_located_at_its_own_first_token.
+
+(* (15) From the source text to the link-time message: when the k-th operand of a data list is deferred as a record that
+        carries the location the parser returned for it, and that record is the first one the link step cannot apply, the
+        message names the first token of that operand's own text; and when a symbol it mentions is the first unresolved
+        reference, the message names a label token of that spelling inside the operand.  (That the directive arm stores
+        exactly the location it got is the part left to the oracle and the correspondence.) *)
+Theorem C14_deferred_operand_reported_at_its_first_token :
+  forall k ts e l ms r st pre lk post d d' kd,
+    loperand k ts = Some (LOk e l ms r) ->
+    apply_links st (map ll_link pre) d = Ok d' ->
+    apply_link st lk d' = Diag kd ->
+    lapply_links st (pre ++ {| ll_link := lk; ll_loc := l |} :: post) d = LkDiag kd l /\
+    exists before c, ts = before ++ c ++ r /\ lead_loc c = Some l.
+Proof. exact deferred_operand_reported_at_its_first_token. Qed.
+Print Assumptions C14_deferred_operand_reported_at_its_first_token.
+
+Theorem C14_undefined_symbol_reported_at_its_label_token :
+  forall k ts e l ms r st pre post kk s lm,
+    loperand k ts = Some (LOk e l ms r) -> In (kk, s, lm) ms ->
+    Forall (fun x => ref_ok st (fst x) = true) pre -> ref_undefined st s = true ->
+    lcheck_refs st (pre ++ (s, lm) :: post) = LkDiag DkUndefined lm /\
+    exists before c, ts = before ++ c ++ r /\ In (TLabel kk s, lm) c.
+Proof. exact undefined_symbol_reported_at_its_label_token. Qed.
+Print Assumptions C14_undefined_symbol_reported_at_its_label_token.
 
 (* non-vacuity: "nop" / line break / " @db" -- the directive is at 2:2, the first line break at 1:4 *)
 Example C14_example :
